@@ -15,8 +15,9 @@
 (*        close + reopen, which C15 says is retrievable.                   *)
 (*   enq  the entries offered to the disk tier during the call (admission  *)
 (*        filter calls) - the policy decision C12 is about.                *)
-(*   wr   bytes of an in-memory-only entry reaching the device: C12; when  *)
-(*        the flusher writes what it was given is mechanism (drift).       *)
+(*   wr   bytes of an in-memory-only entry reaching the device: C12; the   *)
+(*        versions written during a step with no flush/gate window open:   *)
+(*        C12; when the flusher writes inside a window: mechanism (drift). *)
 (*   mem  an on-disk-advised entry resident right after its insert: C12;   *)
 (*        else drift.                                                      *)
 (* After the first difference the rest of the run is not judged.           *)
@@ -63,7 +64,10 @@ Bad(op, o, T, exp) ==
             IF ~isLookup \/ r = exp THEN {}
             ELSE IF r < 0 THEN {<<"tool", "lookup_failed_or_incomplete">>}
             ELSE IF r >= 1000000 \/ (known(r) /\ T.vkey[r] # k) THEN {<<"C17", "foreign_value">>}
-            ELSE IF r # 0 /\ r # T.truth[k] THEN {<<"C01", "stale_or_removed_value">>}
+            ELSE IF r # 0 /\ r # T.truth[k]
+                 THEN {<<"C01", "stale_or_removed_value">>}
+                      \cup (IF k \notin T.touched /\ T.touched # Keys /\ FlushOnClose /\ T.truth[k] # 0
+                            THEN {<<"C15", "older_value_after_close">>} ELSE {})
             ELSE IF r = 0 /\ exp # 0 /\ k \notin T.touched /\ T.touched # Keys /\ FlushOnClose
                     /\ KeyLoc[k] # "inmem" /\ ~Collides(k) THEN {<<"C15", "not_persisted_by_close">>}
             ELSE {<<"drift", "lookup">>}
@@ -75,7 +79,12 @@ Bad(op, o, T, exp) ==
         wrTags ==
             IF \E i \in DOMAIN o.wr : known(o.wr[i]) /\ KeyLoc[T.vkey[o.wr[i]]] = "inmem"
             THEN {<<"C12", "inmem_entry_on_device">>}
-            ELSE IF SameBag(o.wr, T.wr) THEN {} ELSE {<<"drift", "device_writes">>}
+            \* with neither the flush switch nor the device gate engaged everything submitted is written within
+            \* the step, so which versions reach the device is the policy's decision (e.g. an entry loaded from
+            \* disk is not rewritten on eviction); with a window open, when they are written is mechanism
+            ELSE IF SameBag(o.wr, T.wr) THEN {}
+            ELSE IF ~T.hold /\ ~T.gate /\ ~S.hold /\ ~S.gate THEN {<<"C12", "device_writes">>}
+            ELSE {<<"drift", "device_writes">>}
         memExp == [i \in 1 .. Len(KeySeq) |-> IF InMem(T, KeySeq[i]) THEN 1 ELSE 0]
         memTags ==
             \* the advice governs the insert (a later lookup may populate memory from disk)
@@ -86,6 +95,9 @@ Bad(op, o, T, exp) ==
         dskTags == IF o.dsk = dskExp THEN {} ELSE {<<"drift", "disk_index">>}
     IN resTags \cup enqTags \cup hitTags \cup wrTags \cup memTags \cup dskTags
 
+Robust == {"stale_or_removed_value", "foreign_value", "older_value_after_close", "hit_reoffered_to_disk",
+           "inmem_entry_on_device", "ondisk_entry_retained_in_memory"}
+
 TraceInit == S = S0 /\ out = [op |-> [a |-> "none"], res |-> 0] /\ l = 1 /\ bad = {} /\ dead = FALSE
 
 TraceNext ==
@@ -93,7 +105,9 @@ TraceNext ==
     /\ Apply(Rec[l].op)
     /\ LET b == Bad(Rec[l].op, Rec[l].obs, S', out'.res)
            isInit == Rec[l].op.a = "init" IN
-       /\ bad' = IF isInit \/ dead THEN {} ELSE b
+       \* after a difference the specification's state may no longer describe the implementation: only the
+       \* tags that rest on the logged operations alone (the truth of a key, its advice) are still judged
+       /\ bad' = IF isInit THEN {} ELSE IF dead THEN {x \in b : x[2] \in Robust} ELSE b
        /\ dead' = IF isInit THEN FALSE ELSE (dead \/ b # {})
     /\ l' = l + 1
 
